@@ -223,13 +223,15 @@ def matches(expect, got):
         if k == "array+list":
             return same_floats(got[0], expect[1]) and list(got[1]) == expect[2]
         if k == "array2":
-            return np.asarray(got).reshape(-1, 2).shape[0] == len(expect[1]) and \
+            return np.shape(got) == (len(expect[1]), 2) and \
                 same_floats(got, [x for p in expect[1] for x in p])
         if k == "array2+list":
-            return same_floats(got[0], [x for p in expect[1] for x in p]) and \
+            return np.shape(got[0]) == (len(expect[1]), 2) and \
+                same_floats(got[0], [x for p in expect[1] for x in p]) and \
                 list(got[1]) == expect[2]
         if k == "array2+array":
-            return same_floats(got[0], [x for p in expect[1] for x in p]) and \
+            return np.shape(got[0]) == (len(expect[1]), 2) and \
+                same_floats(got[0], [x for p in expect[1] for x in p]) and \
                 same_floats(got[1], expect[2])
         if k == "array+array":
             return same_floats(got[0], expect[1]) and same_floats(got[1], expect[2])
